@@ -419,6 +419,8 @@ class FitBase(FileIOMixin, object):
         self._fitter.reset_minimizer()
         for _error_name in self._BASIC_ERROR_NAMES:
             self._nexus.get(_error_name).mark_for_update()
+        # the last fit may have minimized the pointwise version, which ignores correlations; do_fit chooses anew
+        self._fitter.parameter_to_minimize = self._cost_function.name
         if self._implicit_no_errors:
             _cost_function_class, _kwargs = self._STRING_TO_COST_FUNCTION["chi2_covariance"]
             self._cost_function = _cost_function_class(**_kwargs)
